@@ -750,6 +750,135 @@ fn probe(kind: &'static str, id: &str, op: &str, roles: &[Role], invalid: u32, v
     println!("END");
 }
 
+/// Two (or three) managers of the same kind driven by one thread with the same number of
+/// variables and nearly the same call sequence (so that node indices coincide), one after the
+/// other or interleaved, without collections; query-heavy (sat_count / sat_count_double,
+/// pick_cube, eval, level / name queries): state that an entry point keeps between calls shows
+/// up as a difference to the mirror and to the model.
+fn twin_case(kind: &'static str, id: &str, rng: &mut Rng, interleaved: bool, clients: usize) {
+    let z = kind == "zbdd";
+    let nv = rng.range(3, 5) as u32;
+    let mut ops: Vec<Vec<String>> = vec![Vec::new(); clients];
+    let all = |ops: &mut Vec<Vec<String>>, s: String| {
+        for o in ops.iter_mut() {
+            o.push(s.clone());
+        }
+    };
+    all(&mut ops, "MNEW m0".into());
+    if rng.chance(1, 3) {
+        let names: Vec<String> = (0..nv).map(|i| if i % 2 == 0 { format!("v{i}") } else { "-".into() }).collect();
+        all(&mut ops, format!("ADDNAMED m0 arr {}", names.join(" ")));
+    } else {
+        all(&mut ops, format!("ADDVARS m0 {nv}"));
+    }
+    let mut live: Vec<usize> = Vec::new();
+    let mut next = 0usize;
+    let steps = rng.range(15, 40);
+    let eval_args = |rng: &mut Rng| -> String {
+        let mut vs: Vec<u32> = (0..nv).collect();
+        for i in (1..vs.len()).rev() {
+            vs.swap(i, rng.below(i as u64 + 1) as usize);
+        }
+        vs.iter().map(|v| format!("{v}={}", rng.below(2))).collect::<Vec<_>>().join(",")
+    };
+    for _ in 0..steps {
+        let r = rng.below(100);
+        if live.len() < 2 || r < 14 {
+            let d = next;
+            next += 1;
+            let v = rng.below(nv as u64);
+            let s = match rng.below(if z { 6 } else { 4 }) {
+                0 | 1 => format!("VAR f{d} m0 {v}"),
+                2 => format!("NVAR f{d} m0 {v}"),
+                3 => format!("{} f{d} m0", if rng.chance(1, 2) { "TRUE" } else { "FALSE" }),
+                4 => format!("SINGLETON f{d} m0 {v}"),
+                _ => format!("BASE f{d} m0"),
+            };
+            all(&mut ops, s);
+            live.push(d);
+            continue;
+        }
+        let a = live[rng.below(live.len() as u64) as usize];
+        let b = live[rng.below(live.len() as u64) as usize];
+        let c = live[rng.below(live.len() as u64) as usize];
+        match r {
+            14..=44 => {
+                // a connective; the other clients sometimes use a different one
+                let pool: &[&str] = if z && rng.chance(1, 3) { &["UNION", "INTSEC", "DIFF"] } else { &BIN_OPS };
+                let d = next;
+                next += 1;
+                let base = *rng.pick(pool);
+                for (k, o) in ops.iter_mut().enumerate() {
+                    let op = if k > 0 && rng.chance(1, 2) { *rng.pick(pool) } else { base };
+                    o.push(format!("{op} f{d} f{a} f{b}"));
+                }
+                live.push(d);
+            }
+            45..=49 => {
+                let d = next;
+                next += 1;
+                all(&mut ops, format!("NOT f{d} f{a}"));
+                live.push(d);
+            }
+            50..=54 => {
+                let d = next;
+                next += 1;
+                all(&mut ops, format!("ITE f{d} f{a} f{b} f{c}"));
+                live.push(d);
+            }
+            55..=62 => {
+                let d = next;
+                next += 1;
+                all(&mut ops, format!("REF f{d} f{a}"));
+                live.push(d);
+            }
+            63..=66 => {
+                live.retain(|x| *x != a);
+                all(&mut ops, format!("UNREF f{a}"));
+            }
+            67..=80 => all(&mut ops, format!("SATCOUNT f{a} {nv}")),
+            81..=85 => all(&mut ops, format!("PICK f{a}")),
+            86..=89 => {
+                let args = eval_args(rng);
+                all(&mut ops, format!("EVAL f{a} {args}"));
+            }
+            90..=92 => all(&mut ops, format!("LEVEL f{a}")),
+            93..=94 => all(&mut ops, format!("NC f{a}")),
+            95 => all(&mut ops, format!("SAT f{a}")),
+            96 => all(&mut ops, "COUNTS m0".into()),
+            97 => all(&mut ops, format!("NAME m0 {}", rng.below(nv as u64))),
+            98 => all(&mut ops, format!("N2V m0 v{}", rng.below(nv as u64))),
+            _ => all(&mut ops, format!("TT f{a}")),
+        }
+    }
+    for f in &live {
+        all(&mut ops, format!("SATCOUNT f{f} {nv}"));
+    }
+    all(&mut ops, "FINAL".into());
+    println!("CASE {id} kind={kind} cap=65536 cache=1024 threads=1");
+    if interleaved {
+        for i in 0..ops[0].len() {
+            for (k, o) in ops.iter().enumerate() {
+                // the last client finishes first, then the others
+                if o[i] == "FINAL" && k + 1 != ops.len() {
+                    continue;
+                }
+                println!("@{k} {}", o[i]);
+            }
+        }
+        for k in 0..ops.len() - 1 {
+            println!("@{k} FINAL");
+        }
+    } else {
+        for (k, o) in ops.iter().enumerate() {
+            for l in o {
+                println!("@{k} {l}");
+            }
+        }
+    }
+    println!("END");
+}
+
 fn gen_cases(tier: &str, seed: u64) {
     let thorough = tier == "thorough";
     let kinds: [&'static str; 3] = ["bdd", "bcdd", "zbdd"];
@@ -782,7 +911,16 @@ fn gen_cases(tier: &str, seed: u64) {
             println!("UNREF f1\nUNREF f2\nGC m1\nTT f3\nLEVEL f3\nFINAL\nEND");
         }
     }
-    // random sequences; every fourth one with a manager too small for the work (INVALID handles)
+    // several managers on one thread
+    let ntwin = if thorough { 300 } else { 36 };
+    for kind in kinds {
+        for i in 0..ntwin {
+            id += 1;
+            let mut rng = Rng::new(seed.wrapping_mul(7_000_003).wrapping_add(id as u64));
+            twin_case(kind, &format!("t{id}"), &mut rng, i % 2 == 1, if i % 6 == 5 { 3 } else { 2 });
+        }
+    }
+    // random sequences; every third one with a manager too small for the work (INVALID handles)
     let nrand = if thorough { 1500 } else { 60 };
     for kind in kinds {
         for i in 0..nrand {
